@@ -116,6 +116,9 @@ def main(ctx):
     from asyncssh.kex import get_kex_algs
     quick = ctx.tier == 'quick'
     rnd = random.Random(ctx.seed)
+    if ctx.replay_path:
+        from checks import replay_mine
+        return replay_mine.c02(ctx, T, judge_session)
     # ---- 1. design check ----
     mc(ctx, 'c02_mc', {}, ['InOrderOnce', 'NotEarly', 'AllDispatched'])
     mc(ctx, 'c02_mc2', dict(Lens='LensB', Async='{2, 4}'),
